@@ -19,7 +19,7 @@ from __future__ import annotations
 
 import z3
 
-from .engine import Unsupported
+from .engine import PathEnd, Unsupported
 from .loops import havoc_value
 from .values import PList, SArr, Sym, fresh, fresh_name, next_uid, to_z3, zint
 
@@ -36,12 +36,27 @@ class Rule:
     ('bool' | 'int' | 'real' | 'oref' | callable(E) -> fresh symbolic value);  leave_args_kind likewise for the list elements."""
 
     def __init__(self, J, Qe=None, Ql=None, modifies=(), enter_kind="oref", leave_kind="oref", depth=None, label="traverse",
-                 ghost_enter=None, ghost_leave=None, leave_args=None, leave_args_at=None, leave_result=None):
+                 ghost_enter=None, ghost_leave=None, leave_args=None, leave_args_at=None, leave_result=None,
+                 leave_arities=None, kids=None, fork_steps=False, leave_list=None):
         # ghost_enter / ghost_leave(E, vars, x, ctx): ghost code run right after the real callback (may update ghost objects listed in `modifies` only;
         # the call just made is in E.ghost["traverse-last-call"] = dict(x=, args=, ret=, ENT=, LEFT=), also for proof-step hints)
         # leave_args_at(E, vars, x, ctx) -> the list handed to `leave` at node x when the child values are not scalars: the contract builds
         # the list value (of length ctx.nkids(x)) and ASSUMES Ql of every entry itself;  leave_result(E) -> fresh value of the whole traversal
         self.leave_args_at, self.leave_result = leave_args_at, leave_result
+        # leave_list(E, vars, x, ctx) -> the list `leave` receives at node x, of SYMBOLIC length nkids(x), for non-scalar values that Ql
+        # determines (one-point rule; e.g. pyvc.ext_C07.NodeList of the handles of x's children in table order).  Ql is still assumed
+        # for every element (`list.get(k)`).
+        self.leave_list = leave_list
+        # fork_steps: run each step (enter / leave) on its OWN path that ends after the step's obligations, instead of continuing
+        # every path of the step through the rest of the carrier (same obligations, fewer repeated instances; for callbacks with many paths)
+        self.fork_steps = fork_steps
+        # leave_arities: for NON-SCALAR leave values (leave_kind callable(E) -> fresh value of the right shape) the leave step is
+        # run once per listed number of children (a concrete list of that many fresh values); that no other number of children
+        # occurs is an OBLIGATION (`leave/number-of-children-is-supported`) to be proved from the carrier's precondition.
+        # kids: (nkids, kid, rank) z3 functions to be used as the children enumeration of this call instead of fresh ones, so that
+        # the carrier's clauses can speak about "the k-th child in table order" (same definitional axioms are assumed for them).
+        self.leave_arities = list(leave_arities) if leave_arities is not None else None
+        self.kids = kids
         self.ghost_enter, self.ghost_leave = ghost_enter, ghost_leave
         # NON-SCALAR callback values (kind = callable(E) -> fresh symbolic value):
         #  * an enter value is shared by all children of the node, so the constructor must hand out a FROZEN object (a write through it
@@ -69,8 +84,14 @@ class Ctx:
         return z3.And(t >= 0, t < self.n)
 
 
-def _mk_value(eng, kind, name):
+def _mk_value(eng, kind, name, node=None):
     if callable(kind):
+        import inspect
+
+        # kind(E) -> an arbitrary value of the right shape (pinned afterwards by assuming Ql);  kind(E, node) may build the value
+        # from the node term directly where Ql DETERMINES the value of a node (one-point rule: "fresh v with v == t" is t)
+        if node is not None and len(inspect.signature(kind).parameters) >= 2:
+            return kind(eng, node)
         return kind(eng)
     return fresh(kind, name)
 
@@ -137,9 +158,12 @@ def apply(eng, rule: Rule, fr, topology, enter, leave, root):
     # ---- ghost vocabulary of this call (definitional on a well-formed table)
     tag = fresh_name("tr")
     Sub = z3.Function("Sub_" + tag, I, B)
-    nkids = z3.Function("nkids_" + tag, I, I)
-    kid = z3.Function("kid_" + tag, I, I, I)
-    rank = z3.Function("rank_" + tag, I, I)
+    if rule.kids is not None:
+        nkids, kid, rank = rule.kids
+    else:
+        nkids = z3.Function("nkids_" + tag, I, I)
+        kid = z3.Function("kid_" + tag, I, I, I)
+        rank = z3.Function("rank_" + tag, I, I)
     eng.assume(Sub(rz))
     eng.assume(z3.ForAll([x], z3.Implies(Sub(x), R(x))))
     eng.assume(z3.ForAll([x], z3.Implies(z3.And(R(x), sel(P, x) >= 0, Sub(sel(P, x))), Sub(x))))
@@ -219,6 +243,12 @@ def apply(eng, rule: Rule, fr, topology, enter, leave, root):
 
     def phase(body):
         """run `body` on an arbitrary reachable state; its assumptions are dropped afterwards"""
+        if rule.fork_steps:
+            if eng.branch(fresh("bool", "run_step")):
+                havoc()
+                body()
+                raise PathEnd()
+            return
         mark = len(eng.pc)
         havoc()
         body()
@@ -236,14 +266,15 @@ def apply(eng, rule: Rule, fr, topology, enter, leave, root):
             dependent[which] = False
             return
 
-        def body():
-            xs, val = fresh("int", "node"), _mk_value(eng, kind, "val")
-            q1 = _zb(fn(eng, vars_now(), xs.z, val, ctx))
-            havoc()
-            q2 = _zb(fn(eng, vars_now(), xs.z, val, ctx))
-            dependent[which] = not z3.eq(z3.simplify(q1), z3.simplify(q2))
-
-        phase(body)
+        mark = len(eng.pc)  # no fork (also with fork_steps): every path must know the answer
+        havoc()
+        xs = fresh("int", "node")
+        val = _mk_value(eng, kind, "val", xs.z)
+        q1 = _zb(fn(eng, vars_now(), xs.z, val, ctx))
+        havoc()
+        q2 = _zb(fn(eng, vars_now(), xs.z, val, ctx))
+        dependent[which] = not z3.eq(z3.simplify(q1), z3.simplify(q2))
+        del eng.pc[mark:]
 
     probe("enter-value-predicate", rule.Qe, rule.enter_kind) if enter is not None else dependent.setdefault("enter-value-predicate", False)
     probe("leave-value-predicate", rule.Ql, rule.leave_kind) if leave is not None else dependent.setdefault("leave-value-predicate", False)
@@ -253,7 +284,8 @@ def apply(eng, rule: Rule, fr, topology, enter, leave, root):
         out = []
         for which, fn, kind, members in (("enter-value-predicate", rule.Qe, rule.enter_kind, ENT), ("leave-value-predicate", rule.Ql, rule.leave_kind, LEFT)):
             if dependent.get(which):
-                y, w = fresh("int", "earlier"), _mk_value(eng, kind, "earlier_val")
+                y = fresh("int", "earlier")
+                w = _mk_value(eng, kind, "earlier_val", y.z)
                 out.append((which, fn, y, w, z3.And(sel(members, y.z), _zb(fn(eng, vars_now(), y.z, w, ctx)))))
         return out
 
@@ -318,15 +350,35 @@ def apply(eng, rule: Rule, fr, topology, enter, leave, root):
             owned_check = False
             if rule.leave_args_at is not None:
                 args = rule.leave_args_at(eng, vars_now(), xz, ctx)
-            elif callable(kind):
-                if rule.leave_args is None:
-                    raise Unsupported("traverse rule: non-scalar leave values need Rule(leave_args=...) or Rule(leave_args_at=...)")
-                args, get = rule.leave_args(eng, nkids(xz))
-                owned_check = True
+            elif rule.leave_list is not None:
+                v = vars_now()
+                args = rule.leave_list(eng, v, xz, ctx)
+                ks = fresh("int", "k")
+                eng.assume(z3.ForAll([ks.z], z3.Implies(z3.And(0 <= ks.z, ks.z < nkids(xz)), _zb(rule.Ql(eng, v, kid(xz, ks.z), args.get(ks), ctx)))))
+            elif callable(kind) and rule.leave_args is None:
+                # non-scalar values: one run of the step per supported number of children, with a concrete list of fresh values
+                if rule.leave_arities is None:
+                    raise Unsupported("traverse rule: non-scalar leave values need Rule(leave_args=...), Rule(leave_args_at=...), Rule(leave_list=...) or Rule(leave_arities=...)")
+                arity = None
+                for a in rule.leave_arities:
+                    if eng.branch(eng.sbool(nkids(xz) == a)):
+                        arity = a
+                        break
+                if arity is None:
+                    eng.prove(f"{lab}/leave/number-of-children-is-supported", z3.BoolVal(False), "precondition",
+                              f"a node with a number of children outside {rule.leave_arities} is reachable")
+                    raise PathEnd()
+                args = PList([_mk_value(eng, kind, f"kidval{j}", kid(xz, z3.IntVal(j))) for j in range(arity)])
+                v = vars_now()
+                for j in range(arity):
+                    eng.assume(_zb(rule.Ql(eng, v, kid(xz, z3.IntVal(j)), args.items[j], ctx)))
             else:
-                args = PList.fresh(kind, n=nkids(xz), name="kidvals")
-                get = lambda kz: Sym(sel(args.cols[0], kz), kind)
-            if rule.leave_args_at is None:
+                if callable(kind):
+                    args, get = rule.leave_args(eng, nkids(xz))
+                    owned_check = True
+                else:
+                    args = PList.fresh(kind, n=nkids(xz), name="kidvals")
+                    get = lambda kz: Sym(sel(args.cols[0], kz), kind)
                 v = vars_now()
                 ql = rule.Ql(eng, v, kid(xz, k), get(k), ctx)
                 for part in ([f for _, f in ql] if isinstance(ql, (list, tuple)) else [ql]):  # one hypothesis per conjunct
@@ -352,7 +404,7 @@ def apply(eng, rule: Rule, fr, topology, enter, leave, root):
     assume_J(S_all, S_all)
     if leave is None:
         return None
-    res = rule.leave_result(eng) if rule.leave_result is not None else _mk_value(eng, rule.leave_kind, "trav")
+    res = rule.leave_result(eng) if rule.leave_result is not None else _mk_value(eng, rule.leave_kind, "trav", rz)
     ql = rule.Ql(eng, vars_now(), rz, res, ctx)
     for part in ([f for _, f in ql] if isinstance(ql, (list, tuple)) else [ql]):  # one hypothesis per conjunct
         eng.assume(_zb(part))
